@@ -174,12 +174,22 @@ def run(chk):
         r3.ok("(allow_unicode, str) -> utf8; (not allow_unicode, str) -> ascii; bytes untouched")
     for (cls, feat), desc in bad_exc.items():
         r4.fail("check_key_helper:raises-%s" % cls, "a key is rejected with %s instead of %s: %s" % (cls, EXC, desc), fn=fn, node=fn.node)
-    raises = [x for x in ast.walk(fn.node) if isinstance(x, ast.Raise) and x.exc is not None]
+    # (the function and the module-level helpers it calls: the rejections may sit in an extracted classifier)
+    scope_r, todo_r = [], [fn]
+    while todo_r:
+        g_ = todo_r.pop()
+        if g_ in scope_r:
+            continue
+        scope_r.append(g_)
+        for n_ in ast.walk(g_.node):
+            if isinstance(n_, ast.Call) and isinstance(n_.func, ast.Name) and n_.func.id in fn.module.functions:
+                todo_r.append(fn.module.functions[n_.func.id])
+    raises = [x for g_ in scope_r for x in ast.walk(g_.node) if isinstance(x, ast.Raise) and x.exc is not None]
     for x in raises:
         e = x.exc.func if isinstance(x.exc, ast.Call) else x.exc
         nm = e.id if isinstance(e, ast.Name) else getattr(e, "attr", "?")
         r4.expect(nm == EXC, "raise site line %d raises %s" % (x.lineno, EXC), "check_key_helper:raise-site:%s" % nm, "a raise statement of check_key_helper raises %s" % nm, fn=fn, node=x)
-    r4.floor("raise sites", len(raises), 3)
+    r4.floor("raise sites", len(raises), 1)
 
     # ------------------------------------------------------------------ R6 the rejection reaches the caller
     r6 = chk.rule("C20.R6", "a rejected key stops the operation: every key-addressed method of Client raises MemcacheIllegalInputError for an illegal key at any position of its batch, with and without ignore_exc, before anything is sent")
@@ -262,6 +272,9 @@ def run(chk):
                 n_routes += 1
                 r5.expect(arg in st.get("#validated", ()), "HashClient._get_client(%s key): the routed key was validated first" % ("pair" if is_pair else "plain"), "HashClient._get_client:routes-unvalidated-key", "for a %s key HashClient._get_client asks the hasher about a key that check_key_helper has not validated on this path: an illegal key is only rejected inside the routed call, where ignore_exc turns the error into a default value (or, with no server left, it is never rejected)" % ("(server_key, key) pair" if is_pair else "plain"), fn=gc, node=node)
     r5.floor("routing paths of HashClient._get_client", n_routes, 4)
+    from . import rules_C12, report as _report
+
+    _report.include_rules(chk, r5, rules_C12, ("C12.R2",), "HashClient transmits a plain key as it is: only a 2-tuple is taken apart into (server_key, key), never a str or bytes key that happens to have two characters")
 
     # every key fragment on the wire of a key-addressed command was validated with the instance prefix
     from . import wire
